@@ -79,6 +79,8 @@ def length_programs(tier):
         srcs = [Src("L", nrows, K, nparts)]
         R = Src("R", 3, {"a": "i", "e": "i"}, 2)
         nodes = [n for n in chains(L, 1 if tier == "quick" else 2, ops=["project", "filter", "assign", "arith", "rename", "elem", "reset_index", "dropna", "dedup", "repartition", "shuffle", "head", "cum", "window"]) if n.kind == "frame"]
+        # two hash-routing operators in a row (shuffle / drop_duplicates) are beyond the solver budget (nested uninterpreted-hash case splits): bounded out
+        nodes = [n for n in nodes if sum(1 for o in n.ops if o.startswith(("shuffle", "drop_duplicates"))) < 2]
         extra = ["L.partitions[[1]]", "L.partitions[[2, 0]]", "(L + 1).partitions[[1, 2]]", "L.a", "L.index", "dx.concat([L, L])", "L.merge(R, on='a')", "L.a.to_frame()", "L[['a']].fillna(1).partitions[[0]]"]
         R2 = Src("R", 4, {"a": "i", "b": "f", "e": "i"}, nparts + 1)
         unaligned = ["L.b.fillna(R.b)", "L.a.mask(L.a > 1, R.a)", "L.a.where(L.a > 1, R.e)", "L.a + R.a", "L.assign(z=R.e)", "L[['a']].fillna(R[['a']])"]
